@@ -140,6 +140,7 @@ class Scheduler:
         self.event_codes: dict = {}      # code object -> [(event name, "call" | "return", extract(frame, retval) -> dict | None)]
         self.events: list = []
         self.put_hook = None             # callable(queue, item) invoked when a Queue.put took effect
+        self.op_hook = None              # callable(kind, obj, value): "set" / "clear" / "wait" (returned True) on Events, "get" / "qsize" on Queues
         self.choices: list[int] = []
         self.done_evt = _rt.Event()
         self.wedge_info = None
@@ -610,6 +611,8 @@ class Condition:
 
     def notify(self, n=1):
         s = cur_sched()
+        if s.op_hook is not None:
+            s.op_hook("notify", self, None)       # before any yield: the state change that is being announced just happened
         s.yield_point()
         for w in self._waiters[:n]:
             s._wake(w)
@@ -636,6 +639,8 @@ class Event:
         s = cur_sched()
         s.yield_point()
         self._flag = True
+        if s.op_hook is not None:
+            s.op_hook("set", self, None)
         for w in self._waiters:
             s._wake(w)
         self._waiters = []
@@ -645,17 +650,23 @@ class Event:
         s = cur_sched()
         s.yield_point()
         self._flag = False
+        if s.op_hook is not None:
+            s.op_hook("clear", self, None)
 
     def wait(self, timeout=None):
         s = cur_sched()
         s.yield_point()
         if self._flag:
+            if s.op_hook is not None:
+                s.op_hook("wait", self, None)
             return True
         me = s.me()
         self._waiters.append(me)
         s.block(self, timeout)
         if me in self._waiters:
             self._waiters.remove(me)
+        if self._flag and s.op_hook is not None:
+            s.op_hook("wait", self, None)
         return self._flag
 
 
@@ -822,7 +833,10 @@ class Queue:
         self._getters: list[SimThread] = []
 
     def qsize(self):
-        cur_sched().yield_point()
+        s = cur_sched()
+        s.yield_point()
+        if s.op_hook is not None:
+            s.op_hook("qsize", self, len(self._items))
         return len(self._items)
 
     def empty(self):
@@ -863,7 +877,10 @@ class Queue:
             s.block(self, rem)
             if me in self._getters:
                 self._getters.remove(me)
-        return self._items.pop(0)
+        item = self._items.pop(0)
+        if s.op_hook is not None:
+            s.op_hook("get", self, item)
+        return item
 
     def get_nowait(self):
         return self.get(False)
